@@ -23,7 +23,7 @@ import os
 import time
 import collections
 
-from .structure import SWorld, apply_op, observe, model_step, UNSPEC, LINK_CLASSES
+from .structure import new_item, SWorld, apply_op, observe, model_step, UNSPEC, LINK_CLASSES
 from .report import HarnessError
 
 _FN = None
@@ -89,6 +89,7 @@ def _run_chunk(seqs):
     viols = {}
     outcomes = collections.Counter()
     for seq in seqs:
+        new_item()
         w, ok = build(spec, seq)
         if not ok:
             skipped += 1
